@@ -78,10 +78,18 @@ func legSem(c *Ctx, rtl bool) {
 	maxLen := c.N(3, 4)
 	depth := c.N(4, 6)
 	modes := map[string]int{}
-	for i := 0; i < nPat; i++ {
+	corpus := semCorpus()
+	for i := 0; i < nPat+len(corpus); i++ {
 		o := randOpts(c.Rng, rtl)
 		d := 2 + c.Rng.Intn(depth-1)
-		ast := GenAst(c.Rng, c01Cfg(c.Rng, o, d))
+		var ast *Ast
+		if i < len(corpus) {
+			// deterministic corpus of past findings, under no option and under every single option
+			ast = corpus[i]
+			o = Opts{RTL: rtl}
+		} else {
+			ast = GenAst(c.Rng, c01Cfg(c.Rng, o, d))
+		}
 		pat := ast.Pattern(o, c.Rng)
 		re, err := regexp2.Compile(pat, toRegexOptions(o))
 		if err != nil {
@@ -141,5 +149,32 @@ func legSem(c *Ctx, rtl bool) {
 	}
 	for k := ALit; k <= AOptGroup; k++ {
 		c.Gate(fmt.Sprintf("AST kind %d generated", k), modes[fmt.Sprintf("kind%d", k)] > 0)
+	}
+}
+
+func lit(c rune) *Ast            { return &Ast{Kind: ALit, Ch: c} }
+func cat(k ...*Ast) *Ast         { return &Ast{Kind: AConcat, Kids: k} }
+func alt(k ...*Ast) *Ast         { return &Ast{Kind: AAlt, Kids: k} }
+func rep(a *Ast, mn, mx int, lazy bool) *Ast {
+	return &Ast{Kind: ARep, Kids: []*Ast{a}, Min: mn, Max: mx, Lazy: lazy}
+}
+func grp(a *Ast) *Ast { return &Ast{Kind: AGroup, Kids: []*Ast{a}} }
+
+// semCorpus: minimised shapes of past disagreements between the engine and the reference semantics
+func semCorpus() []*Ast {
+	dot := &Ast{Kind: ADot}
+	return []*Ast{
+		cat(lit('a'), lit('b'), rep(lit('a'), 0, -1, false)),                                  // aba*  (right-to-left: literal + loop merge)
+		cat(lit('a'), lit('b'), rep(lit('b'), 0, -1, false)),                                  // abb*
+		cat(rep(lit('a'), 0, -1, false), lit('a'), lit('b')),                                  // a*ab
+		cat(lit('a'), lit('b'), rep(lit('a'), 1, -1, true), lit('b')),                         // aba+?b
+		alt(cat(lit('a'), lit('b')), cat(dot, lit('c'))),                                      // ab|.c
+		cat(&Ast{Kind: AAtomic, Kids: []*Ast{cat(rep(lit('a'), 1, -1, true), rep(lit('b'), 0, 1, false))}}, lit('c')), // (?>a+?b?)c
+		cat(grp(cat(rep(lit('a'), 0, -1, false), rep(lit('c'), 0, 1, false))), lit('b'), &Ast{Kind: ABackref, Ref: 1}), // (a*c?)b\1
+		cat(rep(&Ast{Kind: ANonCap, Kids: []*Ast{cat(lit('a'), rep(lit('b'), 0, -1, false))}}, 2, 2, false)),       // (?:ab*){2}
+		cat(rep(&Ast{Kind: AAtomic, Kids: []*Ast{rep(lit('a'), 1, -1, false)}}, 0, 1, false), lit('a'), lit('b')),                          // (?>a+)?ab
+		rep(&Ast{Kind: AAtomic, Kids: []*Ast{rep(lit('a'), 1, 2, false)}}, 2, 2, false),                                                   // (?>a{1,2}){2}
+		cat(rep(&Ast{Kind: AClass, Items: []ClassItem{{Lo: 'a', Hi: 'a'}, {Lo: 'c', Hi: 'c'}}}, 0, -1, false), rep(&Ast{Kind: AClass, Items: []ClassItem{{Lo: 'a', Hi: 'b'}}}, 1, 2, false), lit('a')), // [ac]*[ab]{1,2}a
+		alt(grp(cat(lit('c'), lit('d'), lit('e'))), grp(cat(lit('c'), lit('x'))), grp(cat(lit('c'), lit('d'), lit('e'), lit('f')))), // (cde)|(cx)|(cdef)
 	}
 }
